@@ -32,7 +32,17 @@ type renum struct {
 	file int
 }
 
+// DescriptorFile is imported by files that declare custom options.
+const DescriptorFile = "google/protobuf/descriptor.proto"
+
+var optionTargets = []string{".google.protobuf.MessageOptions", ".google.protobuf.FieldOptions", ".google.protobuf.FileOptions", ".google.protobuf.MethodOptions",
+	".google.protobuf.EnumOptions", ".google.protobuf.ServiceOptions", ".google.protobuf.OneofOptions", ".google.protobuf.EnumValueOptions"}
+
+var topNamePool = []string{"Params", "Msg", "Request", "Response", "Item", "Config", "Leaf", "State"}
+var enumNamePool = []string{"Kind", "Status", "Mode"}
+
 type randomGen struct {
+	usedTop map[string]bool // proto package + "." + name
 	t     *simhook.Tape
 	opts  RandomOpts
 	msgs  []rmsg
@@ -43,14 +53,27 @@ type randomGen struct {
 }
 
 func RandomSet(t *simhook.Tape, opts RandomOpts) []*descriptorpb.FileDescriptorProto {
-	g := &randomGen{t: t, opts: opts}
+	g := &randomGen{t: t, opts: opts, usedTop: map[string]bool{}}
 	nFiles := 1 + t.Draw("rs.files", 4)
-	nPkgs := 1 + t.Draw("rs.pkgs", 2)
+	nPkgs := 1 + t.Draw("rs.pkgs", 3)
 	for i := 0; i < nFiles; i++ {
 		pkg := t.Draw("rs.pkgof", nPkgs)
 		g.genFile(i, pkg)
 	}
 	return g.files
+}
+
+// topName picks a top-level name from a small pool shared by all packages, so
+// that different Go packages declare messages with the same Go name; it is
+// made unique within its proto package.
+func (g *randomGen) topName(pkg string, pool []string, label string) string {
+	base := pool[g.t.Draw(label, len(pool))]
+	name := base
+	for i := 2; g.usedTop[pkg+"."+name]; i++ {
+		name = fmt.Sprintf("%s%d", base, i)
+	}
+	g.usedTop[pkg+"."+name] = true
+	return name
 }
 
 func (g *randomGen) visible(file int, of int) bool {
@@ -93,7 +116,7 @@ func (g *randomGen) genFile(idx, pkg int) {
 
 	nEnums := t.Draw("rs.enums", 3)
 	for i := 0; i < nEnums; i++ {
-		name := fmt.Sprintf("E%d_%d", idx, i)
+		name := g.topName(pkgName, enumNamePool, "rs.enumname")
 		fd.EnumType = append(fd.EnumType, g.genEnum(name))
 		g.enums = append(g.enums, renum{"." + pkgName + "." + name, idx})
 	}
@@ -101,13 +124,45 @@ func (g *randomGen) genFile(idx, pkg int) {
 	// declare the names first so that messages can refer to later siblings and to themselves
 	var tops []*msgBuilder
 	for i := 0; i < nMsgs; i++ {
-		b := newMsg(fmt.Sprintf("M%d_%d", idx, i), "."+pkgName)
+		b := newMsg(g.topName(pkgName, topNamePool, "rs.msgname"), "."+pkgName)
 		tops = append(tops, b)
 		g.msgs = append(g.msgs, rmsg{b.full, idx})
 	}
 	for _, b := range tops {
 		g.fillMsg(b, idx, 0, proto2)
 		fd.MessageType = append(fd.MessageType, b.m)
+	}
+	if !proto2 && t.Chance("rs.extensions", 1, 3) {
+		// custom options: extensions of descriptor.proto option messages
+		fd.Dependency = append(fd.Dependency, DescriptorFile)
+		n := 1 + t.Draw("rs.next", 6)
+		for i := 0; i < n; i++ {
+			ext := &descriptorpb.FieldDescriptorProto{
+				Name:     proto.String(fmt.Sprintf("ext_%d_%d", idx, i)),
+				Number:   proto.Int32(int32(50000 + idx*100 + i)),
+				Label:    descriptorpb.FieldDescriptorProto_LABEL_OPTIONAL.Enum(),
+				Extendee: proto.String(optionTargets[t.Draw("rs.exttarget", len(optionTargets))]),
+				JsonName: proto.String(fmt.Sprintf("ext%d%d", idx, i)),
+			}
+			switch t.Draw("rs.exttype", 3) {
+			case 0:
+				ext.Type = typeOf("string").Enum()
+			case 1:
+				ext.Type = typeOf(oneofSafeScalars[t.Draw("rs.extscalar", len(oneofSafeScalars))]).Enum()
+			case 2:
+				ext.Type = descriptorpb.FieldDescriptorProto_TYPE_MESSAGE.Enum()
+				ext.TypeName = proto.String(tops[t.Draw("rs.extmsg", len(tops))].full)
+			}
+			if t.Chance("rs.extnested", 1, 16) {
+				// declared inside a message scope (rare: on the current tree the
+				// generator emits unparsable code for such a message - a matter
+				// for property C12 - and an error response compares nothing)
+				scope := tops[t.Draw("rs.extscope", len(tops))]
+				scope.m.Extension = append(scope.m.Extension, ext)
+				continue
+			}
+			fd.Extension = append(fd.Extension, ext)
+		}
 	}
 	if !proto2 && t.Chance("rs.service", 1, 4) && len(tops) > 0 {
 		svc := &descriptorpb.ServiceDescriptorProto{Name: proto.String(fmt.Sprintf("Svc%d", idx))}
